@@ -5,10 +5,6 @@
 import Kopf.Lemmas.C13_Decide
 namespace Kopf.C13
 
-/-- somebody else's live record of priority ≥ `p` is in the status (as a Bool, at clock `t`). -/
-def blockedB (u : Int) (st : Status) (i : Identity) (p : Int) (t : Int) : Bool :=
-  st.any (fun e => e.1 != i && !e.2.dead u t && decide (e.2.priority ≥ p))
-
 theorem blockedB_iff {u : Int} {st : Status} {i : Identity} {p : Int} {t : Int} :
     blockedB u st i p t = true ↔ ∃ j r, (j, r) ∈ st ∧ j ≠ i ∧ r.dead u t = false ∧ r.priority ≥ p := by
   simp only [blockedB, List.any_eq_true, Bool.and_eq_true, bne_iff_ne, ne_eq, Bool.not_eq_true', decide_eq_true_eq]
@@ -168,7 +164,7 @@ theorem inv_step {u : Int} {s s' : State} {l : Label} (hi : Inv u s) (h : step u
       simp at hs
     · simp only [updOp_other _ _ hki] at hk
       exact hi k op hk v t hs
-  | keepalive i =>
+  | keepalive i lag =>
     simp only [step] at h
     cases hk : s.ops i with
     | none => simp [hk] at h
@@ -178,8 +174,15 @@ theorem inv_step {u : Int} {s s' : State} {l : Label} (hi : Inv u s) (h : step u
       · simp only [ha, if_true, Option.some.injEq] at h
         subst h
         intro k op hk' v t hs
-        obtain ⟨h1, _⟩ := hi k op hk' v t hs
-        exact ⟨by simp only; omega, by simp only; omega⟩
+        by_cases hki : k = i
+        · subst hki
+          simp at hk'
+          subst hk'
+          obtain ⟨h1, _⟩ := hi k o hk v t hs
+          exact ⟨by simp only; omega, by simp only; omega⟩
+        · simp only [updOp_other _ _ hki] at hk'
+          obtain ⟨h1, _⟩ := hi k op hk' v t hs
+          exact ⟨by simp only; omega, by simp only; omega⟩
       · simp [ha] at h
   | exit i =>
     simp only [step] at h
@@ -202,6 +205,24 @@ theorem inv_step {u : Int} {s s' : State} {l : Label} (hi : Inv u s) (h : step u
           exact ⟨by simp only; omega, by simp only; omega⟩
       · simp [ha] at h
   | kill i =>
+    simp only [step] at h
+    cases hk : s.ops i with
+    | none => simp [hk] at h
+    | some o =>
+      simp only [hk] at h
+      by_cases ha : o.alive = true
+      · simp only [ha, if_true, Option.some.injEq] at h
+        subst h
+        intro k op hk' v t hs
+        by_cases hki : k = i
+        · subst hki
+          simp at hk'
+          subst hk'
+          exact hi k o hk v t hs
+        · simp only [updOp_other _ _ hki] at hk'
+          exact hi k op hk' v t hs
+      · simp [ha] at h
+  | exitLost i =>
     simp only [step] at h
     cases hk : s.ops i with
     | none => simp [hk] at h
@@ -253,7 +274,40 @@ theorem inv_step {u : Int} {s s' : State} {l : Label} (hi : Inv u s) (h : step u
     intro k op hk v t hs
     obtain ⟨h1, _⟩ := hi k op hk v t hs
     exact ⟨by simp only; omega, by simp only; omega⟩
-  | wake i =>
+  | deliverStale i view =>
+    simp only [step] at h
+    cases hk : s.ops i with
+    | none => simp [hk] at h
+    | some o =>
+      simp only [hk] at h
+      by_cases ha : o.alive = true
+      · simp only [ha, if_true, Option.some.injEq] at h
+        subst h
+        intro k op hk' v t hs
+        by_cases hki : k = i
+        · subst hki
+          simp at hk'
+          subst hk'
+          simp at hs
+        · simp only [updOp_other _ _ hki] at hk'
+          obtain ⟨h1, h2⟩ := hi k op hk' v t hs
+          refine ⟨by simp only; split <;> omega, ?_⟩
+          simp only
+          intro hv
+          split at hv
+          · rename_i hc
+            -- nothing was cleaned: the status is untouched
+            have : (decideCore u view.peers i o.prio true (some o.paused) s.now s.now).cleaned = [] := by
+              simpa [List.isEmpty_iff] using hc
+            rw [this]
+            have hf : Status.eraseAll s.status [] = s.status := by
+              unfold Status.eraseAll
+              exact List.filter_eq_self.mpr (fun e _ => by simp)
+            rw [hf]
+            exact h2 hv
+          · omega
+      · simp [ha] at h
+  | wake i lag =>
     simp only [step] at h
     cases hk : s.ops i with
     | none => simp [hk] at h
@@ -280,21 +334,6 @@ theorem inv_reachable {u : Int} {s : State} (h : Reachable u s) : Inv u s := by
   | step l _ hs ih => exact inv_step ih hs
 
 /-! ### who ends up active -/
-
-/-- every running operator has a fresh record carrying its priority; every fresh record belongs to a
-    running operator (no live ghosts); priorities of running operators are distinct. -/
-structure Good (u : Int) (s : State) : Prop where
-  own : ∀ i op, s.ops i = some op → op.alive = true →
-    ∃ r, (i, r) ∈ s.status ∧ r.priority = op.prio ∧ r.dead u s.now = false
-  noGhost : ∀ j r, (j, r) ∈ s.status → r.dead u s.now = false →
-    ∃ op, s.ops j = some op ∧ op.alive = true ∧ r.priority = op.prio
-  distinct : ∀ i j oi oj, s.ops i = some oi → s.ops j = some oj → oi.alive = true → oj.alive = true →
-    oi.prio = oj.prio → i = j
-
-/-- exactly the running operator of maximal priority is not paused. -/
-def ExactlyTop (s : State) : Prop :=
-  ∀ i op, s.ops i = some op → op.alive = true →
-    (op.paused = false ↔ ∀ j oj, s.ops j = some oj → oj.alive = true → oj.prio ≤ op.prio)
 
 theorem top_of_good {u : Int} {s : State} (hg : Good u s)
     (hp : ∀ i op, s.ops i = some op → op.alive = true → op.paused = blockedB u s.status i op.prio s.now) :
